@@ -494,6 +494,17 @@ pub fn plan(property: &str, tier: &str) -> Option<CheckSpec> {
                 TraceOpt { trace: 1u128 << 127, sampled: false, remote_parent: 1 },
             ];
             g.any_trace_order = true;
+            // boundary trace ids for the extracted contexts: all-ones / top bit above, zero and one here
+            let mut gz = GenCfg::base("C11-zero");
+            gz.traces = vec![TraceOpt { trace: 0, sampled: true, remote_parent: 0 }, TraceOpt { trace: 1, sampled: false, remote_parent: u64::MAX }];
+            gz.any_trace_order = true;
+            gz.max_spans = 3;
+            gz.allow_scope = true;
+            gz.max_depth = 1;
+            gz.observe = true;
+            gz.remote_children = true;
+            gz.max_len = if quick { 3 } else { 4 };
+            let nz = b.add_gen(&gz, 0, &[false], &rules, 3_000_000);
             g.max_spans = if quick { 3 } else { 4 };
             g.max_parents = 2;
             g.ordered_parents = true;
@@ -506,6 +517,7 @@ pub fn plan(property: &str, tier: &str) -> Option<CheckSpec> {
             g.remote_children = true;
             g.max_len = if quick { 5 } else { 6 };
             let n1 = b.add_gen(&g, 0, &[false], &rules, 3_000_000);
+            let n1 = n1 + nz;
             rule_text = format!("{n1} generated programs; from_span / current_local_parent observed after every operation; remote child roots created from extracted contexts directly and through the traceparent codec");
             bound_text = format!("<= {} spans, scope depth <= 2, 1 local span, <= {} operations", g.max_spans, g.max_len);
         }
@@ -536,8 +548,11 @@ pub fn plan(property: &str, tier: &str) -> Option<CheckSpec> {
         "C18" => {
             let rules = [Rule::Liveness, Rule::NoPanic, Rule::Times, Rule::Elapsed, Rule::Deliver, Rule::NoExtra];
             let mut g = GenCfg::base("C18");
-            g.traces = vec![TraceOpt { trace: 0x18A, sampled: true, remote_parent: 0 }];
-            g.max_spans = 2;
+            g.traces = vec![TraceOpt { trace: 0x18A, sampled: true, remote_parent: 0 }, TraceOpt { trace: 0x18B, sampled: false, remote_parent: 0 }];
+            g.any_trace_order = true;
+            g.max_parents = 2;
+            g.ordered_parents = true;
+            g.max_spans = if quick { 3 } else { 4 };
             g.allow_scope = true;
             g.allow_lc = true;
             g.max_sets = 1;
